@@ -88,6 +88,96 @@ def gen_mixed(rng, tier):
     return {"kind": "mixed", "dim": dim, "tree": tree, "ops": ops, "seed": rng.randrange(1 << 30)}
 
 
+class MapGen(X.SxGen):
+    """trees over mapping components: a 'coordinate' leaf is a component M[i] (i < pdim, also of a second mapping)
+    with probability p_map, so that the components occur in function-free sub-expressions and next to fields"""
+    pdim = None
+    p_map = 0.65
+
+    def coord(self):
+        r = self.rng
+        if self.maps and r.random() < self.p_map:
+            return {"k": "at", "t": "map", "m": r.choice(self.maps), "i": r.randrange(self.pdim or self.dim), "al": []}
+        return X.SxGen.coord(self)
+
+
+def map_names(tree):
+    return sorted({a["m"] for a in X.sx_atoms(tree) if a["t"] == "map"})
+
+
+def gen_mapping(rng, tier):
+    """mapping components under the operators:
+       curve    - curve / surface mappings (ldim, pdim) = (1,2), (1,3), (2,3) under logical operators
+       two      - components of two different mappings in one expression, logical operators
+       physical - PHYSICAL operators over expressions in the components of a (square) mapping
+    function-free expressions and expressions mixed with fields"""
+    quick = tier == "quick"
+    sub = rng.choices(["curve", "two", "physical"], [0.45, 0.25, 0.30])[0]
+    case = {"kind": "mapping", "sub": sub}
+    if sub == "curve":
+        dim, pdim = rng.choice([(1, 2), (1, 3), (2, 3)])
+        case["map_pdim"] = pdim
+        maps, lg = ("M",), True
+    elif sub == "two":
+        dim = rng.choice([1, 2, 2, 3])
+        pdim = dim
+        if dim < 3 and rng.random() < 0.4:
+            pdim = rng.randint(dim + 1, 3)
+            case["map_pdim"] = pdim
+        maps, lg = ("M", "N"), True
+    else:
+        dim = rng.choice([1, 2, 2, 3])
+        pdim, maps, lg = dim, ("M",), False
+    g = MapGen(rng, dim=dim, lg=lg, maps=maps, max_order=1)
+    g.pdim = pdim
+    for _ in range(20):
+        c = rng.random()
+        if c < 0.5:
+            tree = g.free(rng.randint(1, 2))                                  # function-free
+        elif c < 0.75:
+            tree = {"k": rng.choice(["mul", "add"]), "a": [g.free(rng.randint(0, 1)), g.expr(rng.randint(0, 1))]}
+        else:
+            tree = g.expr(rng.randint(1, 2 if quick else 3))
+        names = map_names(tree)
+        if names and (sub != "two" or len(names) == 2):
+            break
+    else:
+        comps = [{"k": "at", "t": "map", "m": m, "i": rng.randrange(pdim), "al": []} for m in maps]
+        tree = {"k": "mul", "a": comps + [g.coord()]}
+    ops = [[lg, rng.randrange(dim)] for _ in range(rng.randint(1, 2))]
+    case.update({"dim": dim, "tree": tree, "ops": ops, "seed": rng.randrange(1 << 30)})
+    return case
+
+
+def gen_history(rng, tier):
+    """tensor cases with a history: a MUTABLE sympy Matrix argument, or a vector function / tuple (for which the
+    operators return a mutable Matrix), and at least two operators; the runner also checks that no operator changes
+    its argument or an earlier result in place"""
+    dim = rng.choice([2, 3])
+    lg = rng.random() < 0.4
+    g = X.SxGen(rng, dim=dim, lg=lg, max_order=1)
+    c = rng.random()
+    if c < 0.6:
+        w = rng.randint(1, 3)
+        tensor = {"k": "mmatrix", "rows": [[g.expr(rng.randint(0, 2)) for _ in range(w)] for _ in range(rng.randint(1, 2))]}
+    elif c < 0.8:
+        tensor = {"k": "tuple", "items": [g.expr(rng.randint(0, 2)) for _ in range(rng.randint(2, 3))]}
+    else:
+        tensor = {"k": "vecfn", "f": "F"}
+    ops = [[lg, rng.randrange(dim)] for _ in range(rng.randint(2, 3))]
+    return {"kind": "tensor", "dim": dim, "tree": g.fld(), "tensor": tensor, "ops": ops, "seed": rng.randrange(1 << 30)}
+
+
+def cause_of(c):
+    """which special input class a case belongs to (part of the signature of a finding)"""
+    names = map_names(c["tree"]) if not c.get("tensor") else []
+    if names and any(not lg for lg, _ in c["ops"]):
+        return "physical-operator-on-mapping-component"
+    if len(names) >= 2:
+        return "two-mappings"
+    return None
+
+
 def gen_case(rng, tier, idx):
     dim = rng.choice([1, 2, 3, 3])
     lg = rng.random() < 0.4
@@ -166,6 +256,10 @@ def main(run, replay=None):
         # mixed physical/logical operator sequences: generated after the single-family cases (whose random stream is
         # therefore unchanged)
         cases += [gen_mixed(rng, run.tier) for _ in range(72 if quick else 480)]
+        # mapping components: curve / surface mappings, two mappings, physical operators (again appended)
+        cases += [gen_mapping(rng, run.tier) for _ in range(64 if quick else 400)]
+        # histories on mutable matrices / on the matrices the operators themselves return (>= 2 operators)
+        cases += [gen_history(rng, run.tier) for _ in range(16 if quick else 100)]
 
     nb = 16
     outs = run.impl_parallel("C05_impl", [{"cases": cases[i::nb]} for i in range(nb) if cases[i::nb]], timeout=3000)
@@ -240,6 +334,8 @@ def main(run, replay=None):
              "unsupported_node": 0}
     mixed = {"cases": 0, "value_returned": 0, "blocks_checked": 0, "blocks_proved_equal_to_reference": 0,
              "blocks_model_agrees": 0, "skipped_other_family_coordinate": 0, "patterns": {}}
+    mapstat = {"curve_or_surface_mapping": 0, "two_mappings": 0, "physical_operator": 0, "ldim_pdim": {},
+               "value_returned": 0, "proved_equal_to_reference": 0, "output_not_serialisable": 0}
     failing = []
 
     def result_fails(r):
@@ -282,6 +378,15 @@ def main(run, replay=None):
                     mixed["blocks_model_agrees"] += 1 if v // 3 == 0 else 0
             if "err" not in out:
                 mixed["value_returned"] += 1
+        if c["kind"] == "mapping":
+            mapstat[{"curve": "curve_or_surface_mapping", "two": "two_mappings", "physical": "physical_operator"}[c.get("sub", "curve")]] += 1
+            key = "%d,%d" % (c["dim"], c.get("map_pdim") or c["dim"])
+            mapstat["ldim_pdim"][key] = mapstat["ldim_pdim"].get(key, 0) + 1
+            if "err" not in out:
+                mapstat["value_returned"] += 1
+                mapstat["proved_equal_to_reference"] += 1 if code.get(ci, ("value", 8))[1] % 3 == 0 else 0
+            elif out["err"] == "unsupported-node":
+                mapstat["output_not_serialisable"] += 1
         if "err" in out:
             if out["err"] == "unsupported-node":
                 stats["unsupported_node"] += 1
@@ -296,6 +401,9 @@ def main(run, replay=None):
                     stats["refused_both"] += 1
                 else:
                     stats["impl_refused_model_value"] += 1
+                continue
+            if out["err"] == "argument-mutated":
+                failing.append((ci, "argument-mutated", "an operator works in place: " + out.get("msg", "")))
                 continue
             failing.append((ci, "exception", "the operator raised %s on a supported expression: %s" % (out["err"], out.get("msg", ""))))
             continue
@@ -336,15 +444,18 @@ def main(run, replay=None):
         if not best.get("tensor"):
             for st in subtrees(best["tree"]):
                 cands.append(dict(best, tree=st))
+            if best.get("map_pdim") and all(a["i"] < best["dim"] for a in X.sx_atoms(best["tree"]) if a["t"] == "map"):
+                cands.append({k: v for k, v in best.items() if k != "map_pdim"})      # a square mapping suffices
         return cands[:24]
 
     failing.sort(key=lambda f: (is_mixed(cases[f[0]]), f[0]))     # single-family inputs first
     reported, reported_sigs, tries = set(), set(), {}
     for ci, kind, msg in failing:
         c = cases[ci]
-        if (kind, is_mixed(c)) in reported or tries.get((kind, is_mixed(c)), 0) >= 3:
+        grp = (kind, is_mixed(c), cause_of(c))
+        if grp in reported or tries.get(grp, 0) >= 3:
             continue
-        tries[(kind, is_mixed(c))] = tries.get((kind, is_mixed(c)), 0) + 1
+        tries[grp] = tries.get(grp, 0) + 1
         best = copy.deepcopy(c)
         if not replay and kind != "crash":
             # shrink: fewer blocks / operators, smaller tree
@@ -360,9 +471,11 @@ def main(run, replay=None):
             best["kind"] = "mixed"
         elif best.get("kind") == "mixed":
             best["kind"] = "supported"
+        if cause_of(best):
+            sig["cause"] = cause_of(best)    # the failure needs two mappings / a physical operator over mapping components
         # a mixed input whose failure does not need the mixing shrinks to a single-family input: it is the same
-        # finding as the single-family one; look at the next mixed input (at most three) for one that does need it
-        reported.add((kind, is_mixed(best)))
+        # finding as the single-family one; look at the next input of the group (at most three) for one that does
+        reported.add((kind, is_mixed(best), cause_of(best)))
         if json.dumps(sig, sort_keys=True) in reported_sigs:
             continue
         reported_sigs.add(json.dumps(sig, sort_keys=True))
@@ -411,7 +524,9 @@ def main(run, replay=None):
         "input_kinds": {"supported": sum(1 for c in cases if c["kind"] == "supported"),
                         "fn_of_field": sum(1 for c in cases if c["kind"] == "fn_of_field"),
                         "tensor": sum(1 for c in cases if c["kind"] == "tensor"),
-                        "mixed": sum(1 for c in cases if is_mixed(c))},
+                        "mixed": sum(1 for c in cases if is_mixed(c)),
+                        "mapping": sum(1 for c in cases if c["kind"] == "mapping")},
+        "mapping_component_cases": mapstat,
         "mixed_operator_sequences": mixed,
         "size_histogram": size_hist, "operator_chain_length": ops_hist, "dimension": dims, "node_kinds": node_hist,
         "samples": cases[:2] + [c for c in cases if is_mixed(c)][:1],
